@@ -333,6 +333,14 @@ def _check_object_from_file(query, filepath, allow_custom, version, encoding):
 
     if stix_obj["type"] == "bundle":
         stix_obj = stix_obj["objects"][0]
+        if version:
+            # The members of a parsed bundle are auto-detected one by one.  The
+            # caller asked for this object under a specific version, as for a
+            # file that holds the object itself.
+            stix_obj = parse(
+                stix_json["objects"][0], allow_custom=allow_custom,
+                version=version,
+            )
 
     # check against other filters, add if match
     result = next(apply_common_filters([stix_obj], query), None)
